@@ -89,4 +89,9 @@ PROPS = {
         "level": "exploration", "quick_s": 30, "thorough_s": 600, "thorough_seeds": 4,
         "rule": "definitions with 1..3 executable processes (0..2 tasks each, so some finish at once) or one executable process that throws to a waiting process (instantiated at its start event) and optionally to a listening catch event of a second executable process; 1..3 ProcessSet.WaitUntilComplete calls, sequential or concurrent; oracle: one token game per process instance (instances created per throw), completion iff all instances done, exactly one CeaseProcessSetTrace, wake count of the catch event; distinct = schedule hash; non-trivial = >1 process or >1 wait and a context switch",
     },
+    "C20": {
+        "level": "exploration", "quick_s": 40, "thorough_s": 900, "thorough_seeds": 4, "race": True, "race_clause": "C20/data-race",
+        "rule": "(b) 1..8 generators alive at once (real muyo/sno generators through id.GetSno(), and fallback generators created at the same instant of the frozen simulated clock), 1..16 goroutines drawing 1..60 ids each from every generator under tape-driven interleaving, snapshot after a drawn number of draws followed by RestoreIdGenerator and further draws (crash/restart with durable state), occasionally 70000 draws inside one frozen time unit (sequence overflow); (a) engine runs of forking programs with the engine's real default generator, collecting FlowId/InstanceId from the traces; race build: the Go race detector sees the draws with the scheduler hand-off hidden; oracle: one set, any repeat is a violation; distinct = schedule hash; non-trivial = >1 drawing goroutine or generator",
+        "oracle": "pairwise distinctness over the whole run + race detector",
+    },
 }
